@@ -61,14 +61,17 @@ package tlv
 //@
 //@ func numLeadingZeroBytes16
 //@   props C10
+//@   bounds-safe
 //@   ensures result == ite(v == 0, 2, ite(v < 256, 1, 0))
 //@
 //@ func numLeadingZeroBytes32
 //@   props C10
+//@   bounds-safe
 //@   ensures result == ite(v == 0, 4, ite(v < 256, 3, ite(v < 65536, 2, ite(v < 16777216, 1, 0))))
 //@
 //@ func numLeadingZeroBytes64
 //@   props C10
+//@   bounds-safe
 //@   ensures result == ite(v == 0, 8, ite(v < 256, 7, ite(v < 65536, 6, ite(v < 16777216, 5, ite(v < 4294967296, 4,
 //@           ite(v < 1099511627776, 3, ite(v < 281474976710656, 2, ite(v < 72057594037927936, 1, 0))))))))
 //@
